@@ -368,7 +368,7 @@ def fixed_families():
 
 SPELL = {"plain": lambda w: str(w), "x7": lambda w: str(7 * w), "padded": lambda w: "%04d" % w, "nano": lambda w: "0.%09d" % w,
          "tenths": lambda w: "%d.%d" % (w // 10, w % 10), "micro": lambda w: "0.%06d" % w, "x1e6": lambda w: str(w * 10 ** 6), "float": lambda w: "%d.0" % w,
-         "x1e20": lambda w: str(w * 10 ** 20), "x1e16.0": lambda w: str(w * 10 ** 16) + ".0", "1e-10": lambda w: "0.%010d" % w, "1e-15": lambda w: "0.%015d" % w}
+         "x1e20": lambda w: str(w * 10 ** 20), "x1e299": lambda w: str(w * 10 ** 299), "x1e16.0": lambda w: str(w * 10 ** 16) + ".0", "1e-10": lambda w: "0.%010d" % w, "1e-15": lambda w: "0.%015d" % w}
 
 
 def spelling_cases():
@@ -385,6 +385,8 @@ def judge_spellings(case):
     units = ["u%d" % i for i in range(case["n_units"])] + ["", 0, None]
     rows = {}
     for name, f in SPELL.items():
+        if name == "x1e299" and sum(ws) > 5000:
+            continue  # (the total would leave the range of a double)
         text = M.render(M.program("sp", M.ret([(M.lit_str("g%d" % gi), f(w)) for gi, w in enumerate(ws)]), salt=case["salt"], splitters=["uid"]))
         res = sut.compile_text(text)
         if res[0] != "ok":
